@@ -8,7 +8,7 @@ PROPS = {
         engine="sidefx",
         check_targets=["Check/CheckSideFx.vo"],
         proof_targets=["Props/C23.vo"],
-        theorems=[("C23", "C23_additions"), ("C23", "C23_parsed_items_unreported"), ("C23", "C23_probe_ids"), ("C23", "C23_checker_sound")],
+        theorems=[("C23", "C23_additions"), ("C23", "C23_parsed_items_unreported"), ("C23", "C23_probe_ids"), ("C23", "C23_special_probes_reported_as_injected"), ("C23", "C23_checker_sound")],
         quick=dict(n=1500), thorough=dict(n=30000), per_shard=200,
         rule="generated modules (0-4 imports of all five kinds, 1-3 local functions, globals, memories, 1-3 types, parsed exports and data segments) and histories of 0-6 additions "
              "(add_func_type, add_import_func / add_imported_global / add_import_memory, FunctionBuilder::finish_module with index-bearing bodies, add_global, iterator add_global, "
@@ -18,10 +18,11 @@ PROPS = {
              "append_tag_at, whose code carries call / global.get / memory.size / i32.load on ids that the history moved. The history is applied to two parsed copies: one is asked "
              "for pull_side_effects(), the other for encode(); non-trivial = history or plan non-empty",
         level_text="Proof (every state, hence every history): the records of every addition kind are exactly the image, in order, of the items of that kind that have a tag (C23_additions); "
-                   "for every input and history no parsed item has a tag when the report is pulled (C23_parsed_items_unreported); every reported probe body except the after / alternate list "
-                   "of the final `end` occurs verbatim in the emitted code (C23_probe_ids). The whole property (one record per tagged added item / probe with tag and content, none for "
+                   "for every input and history no parsed item has a tag when the report is pulled (C23_parsed_items_unreported); every probe body that add_opcode_injections reports (functions without special instrumentation) occurs verbatim in the emitted code "
+                   "(C23_probe_ids), and every record of a function with special instrumentation is exactly one (instruction, mode) list of the flags before the lowering, re-mapped, with its own tag "
+                   "(C23_special_probes_reported_as_injected). The whole property (one record per tagged added item / probe with tag and content, none for "
                    "parsed or deleted items, probe records name function / instruction / mode and carry bodies in the index space of the encoding) is decided per history in Coq on the "
-                   "real report and the real encoding. Known classes D22, D205; D204 and the index-space defect D06 are repaired (fix: commits).",
+                   "real report and the real encoding. No known class is left: D22 (special-mode probes reported through the lists they were lowered to; C23_repaired_D22_*), D205, D204 and the index-space defect D06 are repaired (fix: commits). A tagged probe whose code the encoder drops need not be reported.",
         level_note="Trusted: Coq kernel + vm_compute; the harness (generator, conversion of Injection values to tokens, replay of the history on a second copy for the encoding, wasmparser decoding). "
                    "Modelled, not verified: the pull_side_effects branches, tag handling of the addition API, add_injections. Reading of the text (stated in CheckSideFx.v): an item 'carries a tag' "
                    "when a non-empty tag was given; a record for an added item / probe without one is tolerated only with the empty tag; index-valued fields of addition records "
